@@ -16,6 +16,10 @@
 (*         otherwise insignificant; it is NOT a token).                    *)
 (* Part 3: the number-literal automaton over characters, with value.       *)
 (*                                                                         *)
+(* The table contains non-ASCII characters: run TLC with                   *)
+(*   JAVA_TOOL_OPTIONS="-Dfile.encoding=UTF-8 -Dstdout.encoding=UTF-8"     *)
+(* when it is printed (the check does).                                    *)
+(*                                                                         *)
 (* Text is a sequence of 1-character strings (TLC cannot index strings).   *)
 (* The module has no constants and no variables; it is EXTENDed by         *)
 (* Grammar.tla and by the model-checking / trace modules.                  *)
